@@ -22,10 +22,10 @@ abbrev Spec := UInt64 → Option Nat
 
 /-- client contract of `unit.c`: units are non-NULL; a unit is mapped at most once at a time
 (live units of user pools are distinct handles); unmap / get only for mapped units -/
-def legal (m : Spec) : Op → Prop
-  | .map u _ _ => u ≠ 0 ∧ m u = none
-  | .unmap u => u ≠ 0 ∧ m u ≠ none
-  | .get u => u ≠ 0 ∧ m u ≠ none
+def legal (z : UInt64) (m : Spec) : Op → Prop
+  | .map u _ _ => u ≠ z ∧ m u = none
+  | .unmap u => u ≠ z ∧ m u ≠ none
+  | .get u => u ≠ z ∧ m u ≠ none
 
 def specStep (m : Spec) : Op → Out → Spec
   | .map u th _, .mapR true => fun x => if x = u then some th else m x
@@ -41,13 +41,13 @@ def specOut (m : Spec) : Op → Out → Prop
   | _, _ => False
 
 /-- as long as the caller keeps the contract, every result is what the finite map says -/
-def specRun (m : Spec) : List Op → List Out → Prop
+def specRun (z : UInt64) (m : Spec) : List Op → List Out → Prop
   | [], [] => True
-  | op :: ops, o :: os => legal m op → specOut m op o ∧ specRun (specStep m op o) ops os
+  | op :: ops, o :: os => legal z m op → specOut m op o ∧ specRun z (specStep m op o) ops os
   | _, _ => False
 
-theorem unitmap_step_refines (m : UM) (op : Op) (hw : WF m) (hl : legal (absMap m) op) :
-    WF (step m op).1 ∧ specOut (absMap m) op (step m op).2 ∧
+theorem unitmap_step_refines (m : UM) (op : Op) (hw : WF m) (hl : legal m.nul (absMap m) op) :
+    WF (step m op).1 ∧ (step m op).1.nul = m.nul ∧ specOut (absMap m) op (step m op).2 ∧
     ∀ x, absMap (step m op).1 x = specStep (absMap m) op (step m op).2 x := by
   cases op with
   | map u th mem =>
@@ -55,15 +55,15 @@ theorem unitmap_step_refines (m : UM) (op : Op) (hw : WF m) (hl : legal (absMap 
     simp only [step]
     cases hm : mapThread m u th mem with
     | none =>
-      refine ⟨hw, ?_, fun _ => rfl⟩
+      refine ⟨hw, rfl, ?_, fun _ => rfl⟩
       intro hmem; have := hs.1 hmem; rw [hm] at this; cases this
     | some m' =>
-      obtain ⟨h1, _, h3, _⟩ := hs.2 m' hm
-      exact ⟨h1, fun _ => rfl, h3⟩
+      obtain ⟨h1, h2, h3, _⟩ := hs.2 m' hm
+      exact ⟨h1, h2.2, fun _ => rfl, h3⟩
   | unmap u =>
-    obtain ⟨m', hm, h1, _, h3, _⟩ := unmap_spec m u hw hl.1 hl.2
+    obtain ⟨m', hm, h1, h2, h3, _⟩ := unmap_spec m u hw hl.1 hl.2
     simp only [step, hm]
-    exact ⟨h1, trivial, h3⟩
+    exact ⟨h1, h2.2, trivial, h3⟩
   | get u =>
     simp only [step]
     cases hg : getThread m u with
@@ -71,7 +71,7 @@ theorem unitmap_step_refines (m : UM) (op : Op) (hw : WF m) (hl : legal (absMap 
       have : absMap m u = none := by simp [absMap, hl.1, hg]
       exact absurd this hl.2
     | some th =>
-      refine ⟨hw, ?_, fun _ => rfl⟩
+      refine ⟨hw, rfl, ?_, fun _ => rfl⟩
       simp [specOut, absMap, hl.1, hg]
 
 /-- **C14 (table is a finite map)**.  From any well-formed table (in particular the empty one
@@ -81,7 +81,7 @@ colliding in a bucket or not, with the real hash function, tombstones reused —
 the client contract, no assertion fires, a map fails only for lack of memory, and every get
 returns the work unit last mapped to that unit. -/
 theorem unitmap_refines_map (ops : List Op) (m : UM) (hw : WF m) :
-    specRun (absMap m) ops (runOps m ops).2 := by
+    specRun m.nul (absMap m) ops (runOps m ops).2 := by
   induction ops generalizing m with
   | nil => simp [runOps, specRun]
   | cons op ops ih =>
@@ -89,26 +89,26 @@ theorem unitmap_refines_map (ops : List Op) (m : UM) (hw : WF m) :
     intro hl
     have hs := unitmap_step_refines m op hw hl
     have ih' := ih (step m op).1 hs.1
-    have heq : absMap (step m op).1 = specStep (absMap m) op (step m op).2 := funext hs.2.2
-    rw [heq] at ih'
-    exact ⟨hs.2.1, ih'⟩
+    have heq : absMap (step m op).1 = specStep (absMap m) op (step m op).2 := funext hs.2.2.2
+    rw [heq, hs.2.1] at ih'
+    exact ⟨hs.2.2.1, ih'⟩
 
-theorem unitmap_init_empty (exp : Nat) : WF (empty exp) ∧ ∀ u, absMap (empty exp) u = none :=
-  ⟨empty_wf exp, absMap_empty exp⟩
+theorem unitmap_init_empty (exp : Nat) (z : UInt64) : WF (empty exp z) ∧ ∀ u, absMap (empty exp z) u = none :=
+  ⟨empty_wf exp z, absMap_empty exp z⟩
 
 /-- **C14 (tombstones are reused, chains never shrink)**.  A map into a bucket that contains a
 tombstone succeeds without allocating and leaves every chain length unchanged; no operation
 ever shortens a chain (elements are only released by `unit_finalize_hash_table`). -/
-theorem unitmap_tombstones_reused (m : UM) (u : UInt64) (th : Nat) (hw : WF m) (hu : u ≠ 0)
-    (hnew : absMap m u = none) (htomb : ∃ e ∈ m.b (hashIndex m.exp u), e.unit = 0) :
+theorem unitmap_tombstones_reused (m : UM) (u : UInt64) (th : Nat) (hw : WF m) (hu : u ≠ m.nul)
+    (hnew : absMap m u = none) (htomb : ∃ e ∈ m.b (hashIndex m.exp u), e.unit = m.nul) :
     ∃ m', mapThread m u th false = some m' ∧ ∀ i, (m'.b i).length = (m.b i).length := by
   have hs := map_spec m u th false hw hu hnew
   obtain ⟨e, he, he0⟩ := htomb
   cases hm : mapThread m u th false with
   | none =>
     simp only [mapThread] at hm
-    cases hr : chainReuse u th (m.b (hashIndex m.exp u)) with
-    | none => exact absurd he0 ((chainReuse_none u th _).mp hr e he)
+    cases hr : chainReuse m.nul u th (m.b (hashIndex m.exp u)) with
+    | none => exact absurd he0 ((chainReuse_none m.nul u th _).mp hr e he)
     | some c => simp [hr] at hm
   | some m' => exact ⟨m', rfl, (hs.2 m' hm).2.2.2.2 ⟨e, he, he0⟩⟩
 
@@ -117,10 +117,10 @@ theorem unitmap_chains_never_shrink (m : UM) (op : Op) (i : Nat) :
   cases op with
   | map u th mem =>
     simp only [step, mapThread]
-    cases hr : chainReuse u th (m.b (hashIndex m.exp u)) with
+    cases hr : chainReuse m.nul u th (m.b (hashIndex m.exp u)) with
     | some c =>
       simp only [updB]; split
-      · next hi => rw [chainReuse_length u th _ c hr, hi]; exact Nat.le_refl _
+      · next hi => rw [chainReuse_length m.nul u th _ c hr, hi]; exact Nat.le_refl _
       · exact Nat.le_refl _
     | none =>
       cases mem with
@@ -131,11 +131,11 @@ theorem unitmap_chains_never_shrink (m : UM) (op : Op) (i : Nat) :
         · exact Nat.le_refl _
   | unmap u =>
     simp only [step, unmapThread]
-    cases hr : chainClear u (m.b (hashIndex m.exp u)) with
+    cases hr : chainClear m.nul u (m.b (hashIndex m.exp u)) with
     | none => exact Nat.le_refl _
     | some c =>
       simp only [updB]; split
-      · next hi => rw [chainClear_length u _ c hr, hi]; exact Nat.le_refl _
+      · next hi => rw [chainClear_length m.nul u _ c hr, hi]; exact Nat.le_refl _
       · exact Nat.le_refl _
   | get u =>
     simp only [step]
@@ -145,7 +145,7 @@ theorem unitmap_chains_never_shrink (m : UM) (op : Op) (i : Nat) :
 0x17f8 all hash to 1), unmap of the middle one, reuse of its tombstone by a fourth colliding
 unit without allocating (`mem = false`), lookups before and after -/
 example :
-    (runOps (empty 8) [.map 0x8 1 true, .map 0x800 2 true, .map 0x17f8 3 true, .get 0x800, .unmap 0x800,
+    (runOps (empty 8 7) [.map 0x8 1 true, .map 0x800 2 true, .map 0x17f8 3 true, .get 0x800, .unmap 0x800,
                        .get 0x8, .get 0x17f8, .map 0x1ff0 4 false, .get 0x1ff0, .get 0x8]).2
       = [.mapR true, .mapR true, .mapR true, .getR 2, .unmapR, .getR 1, .getR 3, .mapR true, .getR 4, .getR 1] ∧
     (hashIndex 8 0x8, hashIndex 8 0x800, hashIndex 8 0x17f8, hashIndex 8 0x1ff0) = (1, 1, 1, 1) := by
@@ -210,17 +210,19 @@ non-NULL unit handle `u` and pool `p`:
 the log alternates create/free for each (u,p) (`LogOK`), so every created unit is freed
 exactly once when its association ends; when no work unit is associated with `p` any more
 all units of `p` have been freed. -/
-theorem assoc_create_free_balance (exp : Nat) (isb : Nat → Bool) (ops : List Op)
-    (hl : LegalRun (St.init exp isb) ops) :
-    ∃ s os, runOps (St.init exp isb) ops = some (s, os) ∧ LogOK s.log ∧
-      ∀ u p, u ≠ 0 →
+theorem assoc_create_free_balance (exp : Nat) (z : UInt64) (isb : Nat → Bool) (ops : List Op)
+    (hl : LegalRun (St.init exp z isb) ops) :
+    ∃ s os, runOps (St.init exp z isb) ops = some (s, os) ∧ s.map.nul = z ∧ LogOK z s.log ∧
+      ∀ u p, u ≠ z →
         creates s.log u p = frees s.log u p + (if live s u p = true then 1 else 0) ∧
         (live s u p = true ↔ ∃ t, s.thr t = ⟨.user u, some p⟩) := by
-  obtain ⟨s, os, hr, hi⟩ := run_spec ops _ (ainv_init exp isb) hl
-  refine ⟨s, os, hr, hi.log_ok, ?_⟩
+  obtain ⟨s, os, hr, hi, hz⟩ := run_spec ops _ (ainv_init exp z isb) hl
+  have hz : s.map.nul = z := hz
+  refine ⟨s, os, hr, hz, hz ▸ hi.log_ok, ?_⟩
   intro u p hu
+  rw [← hz] at hu
   constructor
-  · rw [← hi.bridge u p hu]; exact log_balance s.log hi.log_ok u p hu
+  · rw [← hi.bridge u p hu]; exact log_balance s.map.nul s.log hi.log_ok u p hu
   · simp only [live]
     constructor
     · intro hlv
@@ -239,11 +241,12 @@ theorem assoc_create_free_balance (exp : Nat) (isb : Nat → Bool) (ops : List O
 /-- **C14 (no use after free)**.  In every such run, each unit handed to a user pool function
 (push / remove / is_in_pool …) and each unit passed to `free_unit` was created by that pool
 and not freed since; each `create_unit` result was not live. -/
-theorem assoc_no_use_after_free (exp : Nat) (isb : Nat → Bool) (ops : List Op)
-    (hl : LegalRun (St.init exp isb) ops) :
-    ∃ s os, runOps (St.init exp isb) ops = some (s, os) ∧ LogOK s.log := by
-  obtain ⟨s, os, hr, hi⟩ := run_spec ops _ (ainv_init exp isb) hl
-  exact ⟨s, os, hr, hi.log_ok⟩
+theorem assoc_no_use_after_free (exp : Nat) (z : UInt64) (isb : Nat → Bool) (ops : List Op)
+    (hl : LegalRun (St.init exp z isb) ops) :
+    ∃ s os, runOps (St.init exp z isb) ops = some (s, os) ∧ LogOK z s.log := by
+  obtain ⟨s, os, hr, hi, hz⟩ := run_spec ops _ (ainv_init exp z isb) hl
+  have hz : s.map.nul = z := hz
+  exact ⟨s, os, hr, hz ▸ hi.log_ok⟩
 
 /-- **C14 (failure rollback)**.  If `ABTI_thread_set_associated_pool` fails (the new pool's
 `create_unit` returned NULL → ABT_ERR_OTHER, or the table could not allocate → ABT_ERR_MEM)
@@ -253,7 +256,7 @@ memory available and a non-NULL unit it succeeds. -/
 theorem assoc_failure_rollback (s : St) (t p : Nat) (nu : UInt64) (mem : Bool) (hi : AInv s)
     (hl : Legal s (.setPool t p nu mem)) :
     ∃ s' rc, setAssoc s t p nu mem = some (s', rc) ∧ AInv s' ∧
-      (rc ≠ .ok → RolledBack s s' t p nu) ∧ (mem = true → nu ≠ 0 → rc = .ok) := by
+      (rc ≠ .ok → RolledBack s s' t p nu) ∧ (mem = true → nu ≠ s.map.nul → rc = .ok) := by
   obtain ⟨s', rc, h1, h2, h3, _, h5⟩ := setAssocCore_spec s t _ p nu mem hi rfl hl.1 hl.2
   exact ⟨s', rc, h1, h2, h3, h5⟩
 
@@ -293,11 +296,11 @@ theorem assoc_unit_thread_translation (s : St) (hi : AInv s) :
 /-- non-vacuity: create in user pool 1, push to user pool 2 (create new, free old), a failing
 migration back (create_unit → NULL), to built-in pool 0 (free), free of the work unit -/
 example :
-    (runOps (St.init 8 (fun p => p == 0))
-      [.init 7 1 0x100 true, .use 7, .setPool 7 2 0x4000 true, .lookup (.user 0x4000), .setPool 7 1 0 true,
-       .setPool 7 0 0 true, .unset 7]).map (fun r => (r.2, r.1.log.reverse))
+    (runOps (St.init 8 7 (fun p => p == 0))
+      [.init 7 1 0x100 true, .use 7, .setPool 7 2 0x4000 true, .lookup (.user 0x4000), .setPool 7 1 7 true,
+       .setPool 7 0 7 true, .unset 7]).map (fun r => (r.2, r.1.log.reverse))
       = some ([.rc .ok, .done, .rc .ok, .thread 7, .rc .other, .rc .ok, .done],
-              [.create 1 7 0x100, .use 1 0x100, .create 2 7 0x4000, .free 1 0x100, .create 1 7 0, .free 2 0x4000]) := by
+              [.create 1 7 0x100, .use 1 0x100, .create 2 7 0x4000, .free 1 0x100, .create 1 7 7, .free 2 0x4000]) := by
   decide
 
 end assoc
